@@ -314,6 +314,32 @@ impl HipEstimator {
 }
 
 /// Compute 1 / 2^value (inverse power of 2)
+/// Checks the kxq0 / kxq1 fields of an image against its registers.
+///
+/// Both are sums of exact powers of two (registers below 32 resp. from 32 on), so the sums
+/// are exactly representable and the comparison can be exact.
+pub(super) fn check_kxq(
+    values: impl Iterator<Item = u8>,
+    kxq0: f64,
+    kxq1: f64,
+) -> Result<(), crate::error::Error> {
+    let (mut sum0, mut sum1) = (0.0, 0.0);
+    for value in values {
+        if value < 32 {
+            sum0 += inv_pow2(value);
+        } else {
+            sum1 += inv_pow2(value);
+        }
+    }
+    if sum0 == kxq0 && sum1 == kxq1 {
+        Ok(())
+    } else {
+        Err(crate::error::Error::deserial(
+            "corrupted: kxq fields do not match the registers",
+        ))
+    }
+}
+
 #[inline]
 fn inv_pow2(value: u8) -> f64 {
     if value == 0 {
